@@ -439,3 +439,12 @@ func SortedIDsShort(evs []*mocrelay.Event) []string {
 	sort.Strings(out)
 	return out
 }
+
+// ShortAll abbreviates a list of ids.
+func ShortAll(ids []string) []string {
+	out := make([]string, len(ids))
+	for i, s := range ids {
+		out[i] = Short(s)
+	}
+	return out
+}
